@@ -809,7 +809,15 @@ class Interp:
 
         if isinstance(o, dict):
             if is_sym(k):
-                raise Unsupported("symbolic dict key")
+                # numeric keys compare by value: overwrite an existing value-equal key, else insert the symbol
+                for kk in list(o):
+                    if kk is k:
+                        o[kk] = v
+                        return
+                for kk in list(o):
+                    if (is_sym(kk) or (isinstance(kk, (int, float)) and not isinstance(kk, bool))) and self.decide(zt(k) == zt(kk)):
+                        o[kk] = v
+                        return
             o[k] = v
         elif isinstance(o, list):
             if is_sym(k):
